@@ -54,11 +54,11 @@ func Specs(o Oracle, quick bool) []*Spec {
 			add(&Spec{Name: "plain-skiplist-b1", Cfg: dbh.Config{Engine: "skiplist", Buckets: 1, VlogFileSize: tinyVlog, SyncWrites: true},
 				Mode: "plain", Client: plainOps(), Maint: allMaint, MaxClient: 4, MaxMaint: 3, Depth: 5, RecOpen: true, ShardAt: 3})
 			add(&Spec{Name: "plain-art-b2-rewrite", Cfg: dbh.Config{Engine: "art", Buckets: 2, VlogFileSize: tinyVlog, SyncWrites: true, ManifestRewrite: 1},
-				Mode: "plain", Client: plainOps(), Maint: append(macro, "reopen"), MaxClient: 3, MaxMaint: 3, Depth: 5, ShardAt: 3})
+				Mode: "plain", Client: plainOps(), Maint: append(macro, "reopen"), MaxClient: 3, MaxMaint: 2, Depth: 5, ShardAt: 3})
 			add(&Spec{Name: "txn-art-b2-rewrite", Cfg: dbh.Config{Engine: "art", Buckets: 2, VlogFileSize: tinyVlog, SyncWrites: true, ManifestRewrite: 1},
-				Mode: "txn", Client: txnOps(), Maint: macro, MaxClient: 4, MaxMaint: 3, Depth: 5, ShardAt: 3})
+				Mode: "txn", Client: txnOps(), Maint: macro, MaxClient: 3, MaxMaint: 3, Depth: 5, ShardAt: 3})
 			add(&Spec{Name: "txn-skiplist-b1", Cfg: dbh.Config{Engine: "skiplist", Buckets: 1, VlogFileSize: tinyVlog, SyncWrites: true},
-				Mode: "txn", Client: txnOps(), Maint: allMaint, MaxClient: 3, MaxMaint: 3, Depth: 5, ShardAt: 3})
+				Mode: "txn", Client: txnOps(), Maint: allMaint, MaxClient: 3, MaxMaint: 2, Depth: 4, ShardAt: 3})
 			add(&Spec{Name: "txn-huge-walbuf", Cfg: withSync(hugeTweak, true), Mode: "txn", HugeSize: 150 << 10,
 				Client: []string{"t:x=s", "t:x=h,y=h", "t:x=h"}, Maint: []string{"rf"}, MaxClient: 3, MaxMaint: 1, Depth: 3})
 		}
@@ -80,14 +80,14 @@ func Specs(o Oracle, quick bool) []*Spec {
 				add(&Spec{Name: fmt.Sprintf("plain-skiplist-b1-sync=%v", sync), Cfg: dbh.Config{Engine: "skiplist", Buckets: 1, VlogFileSize: tinyVlog, SyncWrites: sync},
 					Mode: "plain", Client: plainOps(), Maint: allMaint, MaxClient: 4, MaxMaint: 3, Depth: 5, RecOpen: true, ShardAt: 3})
 				add(&Spec{Name: fmt.Sprintf("txn-art-b2-rewrite-sync=%v", sync), Cfg: dbh.Config{Engine: "art", Buckets: 2, VlogFileSize: tinyVlog, SyncWrites: sync, ManifestRewrite: 1},
-					Mode: "txn", Client: txnOps(), Maint: macro, MaxClient: 4, MaxMaint: 3, Depth: 5, ShardAt: 3})
+					Mode: "txn", Client: txnOps(), Maint: macro, MaxClient: 3, MaxMaint: 3, Depth: 5, ShardAt: 3})
 				add(&Spec{Name: fmt.Sprintf("txn-huge-walbuf-sync=%v", sync), Cfg: withSync(hugeTweak, sync), Mode: "txn", HugeSize: 150 << 10,
 					Client: []string{"t:x=s", "t:x=h,y=h", "t:x=h"}, Maint: []string{"rf"}, MaxClient: 3, MaxMaint: 1, Depth: 3})
 			}
 			add(&Spec{Name: "plain-art-b2-rewrite-reopen-nosync", Cfg: dbh.Config{Engine: "art", Buckets: 2, VlogFileSize: tinyVlog, ManifestRewrite: 1},
-				Mode: "plain", Client: plainOps(), Maint: append(macro, "reopen"), MaxClient: 3, MaxMaint: 3, Depth: 5, ShardAt: 3})
+				Mode: "plain", Client: plainOps(), Maint: append(macro, "reopen"), MaxClient: 3, MaxMaint: 2, Depth: 5, ShardAt: 3})
 			add(&Spec{Name: "txn-skiplist-b1-nosync", Cfg: dbh.Config{Engine: "skiplist", Buckets: 1, VlogFileSize: tinyVlog},
-				Mode: "txn", Client: txnOps(), Maint: allMaint, MaxClient: 3, MaxMaint: 3, Depth: 5, ShardAt: 3})
+				Mode: "txn", Client: txnOps(), Maint: allMaint, MaxClient: 3, MaxMaint: 2, Depth: 4, ShardAt: 3})
 		}
 	case C11:
 		if quick {
@@ -212,7 +212,7 @@ func Main(o Oracle) {
 			"recovered_point": c["recovered_point"], "recovered_torn_write": c["recovered_torn-write"], "recovered_torn_mmap": c["recovered_torn-mmap"],
 			"max_history_depth": c["max_depth"], "nondeterministic_failures_dropped": c["nondeterministic_failures"],
 			"post_schedules": c["post_schedules"], "post_maintenance_steps": c["post_steps"], "post_duplicate_images_skipped": c["post_skipped_duplicate_image"],
-			"post_impl_errors": c["post_impl_errors"], "literal_crash_histories": c["crossval_histories"], "literal_crash_points_identical": c["crossval_points_identical"], "ms_run_node": c["ms_run_node"], "ms_recover": c["us_recover"] / 1000,
+			"post_impl_errors": c["post_impl_errors"], "literal_crash_histories": c["crossval_histories"], "literal_crash_points_identical": c["crossval_points_identical"], "literal_crash_points_identical_modulo_manifest_timestamps": c["crossval_points_identical_modulo_manifest_timestamps"], "ms_run_node": c["ms_run_node"], "ms_recover": c["us_recover"] / 1000,
 		},
 		Assumptions: []string{
 			"process-crash model: the crash image is the directory as the OS sees it (crashfs snapshot taken synchronously inside the vfs call / hook); fsync omissions are invisible by construction",
